@@ -17,7 +17,7 @@ echo "== demo WITH patch (must fail)"
 go test -count=1 -run "$RUN" "./$PKG/" > "$SRC/confirm_with.txt" 2>&1; B=$?; tail -5 "$SRC/confirm_with.txt"
 rm "$WT/$PKG/zz_seed_demo_test.go"
 echo "== existing tests WITH patch (must pass)"
-go build ./... > "$SRC/confirm_tests.txt" 2>&1 && go test -count=1 "./$PKG/..." "$@" >> "$SRC/confirm_tests.txt" 2>&1; C=$?; tail -4 "$SRC/confirm_tests.txt"
+go test -count=1 "./$PKG/..." "$@" >> "$SRC/confirm_tests.txt" 2>&1; C=$?; tail -4 "$SRC/confirm_tests.txt"
 echo "without=$A with=$B tests=$C"
 if [ $A -eq 0 ] && [ $B -ne 0 ] && [ $C -eq 0 ]; then
   mkdir -p /verif/seeded/$ID && cp "$SRC/patch.diff" "$SRC/demo_test.go" "$SRC/meta.json" /verif/seeded/$ID/
